@@ -10,6 +10,7 @@ import minijs_gen as G
 from vlib import log
 
 NODE = shutil.which("node")
+STALL = 25      # seconds without a finished job before a runner child is considered hung
 WORK = os.path.join(vlib.BUILD, "minijs")
 
 
@@ -191,11 +192,19 @@ class _Shard:
             for j in rest: f.write(json.dumps(j) + "\n")
         self.outp = self.inp[:-3] + ".out"
         self.proc = subprocess.Popen([self.exe, self.sub], stdin=open(self.inp), stdout=open(self.outp, "w"), stderr=subprocess.DEVNULL)
+        self.last_size = -1; self.last_change = time.time()
         return True
 
     def poll(self, results):
         rc = self.proc.poll()
         if rc is None:
+            # watchdog: a job that produces no result for STALL seconds hangs the interpreter (e.g. a call that
+            # cannot be bounded by the host): kill the child, the job is reported as HANG
+            try: sz = os.path.getsize(self.outp)
+            except OSError: sz = 0
+            if sz != self.last_size: self.last_size = sz; self.last_change = time.time()
+            elif time.time() - self.last_change > STALL:
+                self.proc.kill(); self.proc.wait()
             return True
         lines = open(self.outp).read().splitlines()
         n = 0
@@ -212,7 +221,7 @@ class _Shard:
         if self.done < len(self.jobs):
             if rc != 0:
                 bad = self.jobs[self.done]
-                results[bad["id"]] = {"id": bad["id"], "ev": [], "status": "CRASH rc=%s" % rc, "steps": 0}
+                results[bad["id"]] = {"id": bad["id"], "ev": [], "status": ("HANG" if rc == -9 else "CRASH rc=%s" % rc), "steps": 0}
                 self.done += 1
             return self.start()
         return False
